@@ -42,6 +42,9 @@ func runC05(c *vk.Ctx) {
 					w.ch.Exec(msg)
 				}
 			}
+			if r.Intn(4) == 0 {
+				w.governance()
+			}
 			ai := r.Intn(len(w.actors))
 			actor := w.actors[ai]
 			din, route, ps := w.randomRoute(4)
